@@ -24,7 +24,7 @@ from engine.chx import Assume, Violation, reach, untraced, concretize
 
 PROPERTY = 'C19'
 LEVEL = 'model_checking'
-REACH_POINTS = ['gate.all', 'nested.refused', 'nested.allowed', 'scope', 'fidelity.ok', 'fidelity.error']
+REACH_POINTS = ['gate.all', 'nested.refused', 'nested.allowed', 'scope', 'scope.seen_before', 'fidelity.ok', 'fidelity.error']
 
 P = pg_perm.CodePermission
 FLAGS = ['ASSIGN', 'CONDITION', 'LOOP', 'CALL', 'EXCEPTION', 'CLASS_DEFINITION', 'FUNCTION_DEFINITION', 'IMPORT']
@@ -309,7 +309,7 @@ def h_nested(params, pi, ci, b0, b1, b2, b3, b4, b5, b6, b7):
 
 # ---- scope rule --------------------------------------------------------------------------
 
-def h_scope(params, s1, s2, s3, e, use1, use2, use3, use_e, prog=4):
+def h_scope(params, s1, s2, s3, e, use1, use2, use3, use_e, prog=4, seen_before=False):
   """Effective permission under nested permission() scopes and an explicit permission= argument is never
   wider than the outermost scope; the scopes restore on exit."""
   def perm_of(x):
@@ -331,7 +331,12 @@ def h_scope(params, s1, s2, s3, e, use1, use2, use3, use_e, prog=4):
   # (lazily: a permission value is a solver decision only for the scopes / argument that are present)
   s1, s2, s3, e = (conc(x) if u else 0 for x, u in ((s1, use1), (s2, use2), (s3, use3), (e, use_e)))
   prog = params['prog'] if params.get('prog') is not None else concretize(prog, range(len(SCOPE_PROGRAMS)))
+  seen_before = bool(seen_before)
   with untraced():
+    if seen_before:
+      # history: the very same program text was accepted earlier under every permission (gating must not remember it)
+      pg_exec.evaluate(SCOPE_PROGRAMS[prog][0], permission=P.ALL)
+      reach('scope.seen_before')
     return _scope_body(perm_of, s1, s2, s3, e, use1, use2, use3, use_e, prog)
 
 
@@ -510,11 +515,13 @@ def shards(tier, seed):
   for prog in range(len(SCOPE_PROGRAMS)):
     out.append(dict(name=f'scope:prog{prog}', fn='h_scope', params=dict(prog=prog, depth=2 if quick else 3),
                     args=[('s1', 'int'), ('s2', 'int'), ('s3', 'int'), ('e', 'int'), ('use1', 'bool'), ('use2', 'bool'),
-                          ('use3', 'bool'), ('use_e', 'bool'), ('prog', 'int')], budget_s=b * 3, expect_s=50, per_path_s=20))
+                          ('use3', 'bool'), ('use_e', 'bool'), ('prog', 'int'), ('seen_before', 'bool')], budget_s=b * 3, expect_s=50,
+                    per_path_s=20))
   if quick:
     out.append(dict(name='scope:prog4:depth3', fn='h_scope', params=dict(prog=4, depth=3),
                     args=[('s1', 'int'), ('s2', 'int'), ('s3', 'int'), ('e', 'int'), ('use1', 'bool'), ('use2', 'bool'),
-                          ('use3', 'bool'), ('use_e', 'bool'), ('prog', 'int')], budget_s=b * 5, expect_s=90, per_path_s=20))
+                          ('use3', 'bool'), ('use_e', 'bool'), ('prog', 'int'), ('seen_before', 'bool')], budget_s=b * 5, expect_s=90,
+                    per_path_s=20))
   for lo in range(0, len(TEMPLATES), 4):
     out.append(dict(name=f'fidelity:{lo}', fn='h_fidelity_r', params=dict(lo=lo, hi=lo + 4), args=[('ti', 'int'), ('a', 'int'), ('b', 'int')],
                     budget_s=b, per_path_s=20))
